@@ -1,10 +1,16 @@
 import ChythonModel.Model.C15Compose
+import ChythonModel.Model.C15Read
+import ChythonModel.Model.C15CgrTokens
 /-!
 Line-protocol driver for C15. One request per line (ints only), one response line.
 
   compose      <mol r> <mol p>                         canonical CGR (atoms / bonds / centre sorted)
   composeWith  nl l.. nf f.. nc c.. <mol r> <mol p>    CGR in exact dict order for the given set iteration orders
   rxn          nR nA nP <mol>*                         canonical CGR of `ReactionContainer.compose` (+ centre)
+  fmt          keep noCx nR nA nP (len cp.. ncomp nrad flag..)*   code points of `format(reaction, spec)`
+  read         cp..                                    role strings of `smiles(text)` (reaction branch)
+  atok         z iso charge pcharge rad prad           `CGRSmiles._format_atom`
+  btok         order porder (0 = None)                 `CGRSmiles._format_bond`
 -/
 open ChythonModel.Py ChythonModel.Model ChythonModel.Model.C15
 
@@ -51,6 +57,20 @@ def showRes (f : CGR → String) : Except String CGR → String
   | .ok h => f h
   | .error e => "err " ++ e
 
+def takeSigs : Nat → List Int → Option (List MolSig × List Int)
+  | 0, xs => some ([], xs)
+  | k+1, xs => do
+      let (s, x1) ← takeNats xs
+      match x1 with
+      | nc :: x2 =>
+        let (fl, x3) ← takeNats x2
+        let (ms, x4) ← takeSigs k x3
+        some (⟨s, nc.toNat, fl.map (· != 0)⟩ :: ms, x4)
+      | [] => none
+
+def showStrs (l : List Str) : String :=
+  toString l.length ++ String.join (l.map fun s => " " ++ toString s.length ++ String.join (s.map fun c => " " ++ toString c))
+
 def handle (line : String) : String :=
   match words line with
   | "compose" :: rest =>
@@ -78,6 +98,37 @@ def handle (line : String) : String :=
       | some (rs, as, ps, []) =>
         if (rs ++ as ++ ps).all (·.WF) then showRes canon (rxnCompose rs as ps) else "bad wf"
       | _ => "bad mols"
+    | _ => "bad ints"
+  | "fmt" :: rest =>
+    match parseInts? rest with
+    | some (keep :: nox :: nR :: nA :: nP :: xs) =>
+      if nR < 0 ∨ nA < 0 ∨ nP < 0 then "bad counts" else
+      match (do let (rs, x1) ← takeSigs nR.toNat xs; let (as, x2) ← takeSigs nA.toNat x1
+                let (ps, x3) ← takeSigs nP.toNat x2; some (rs, as, ps, x3)) with
+      | some (rs, as, ps, []) => "ok " ++ showNats (formatRxn (keep != 0) (nox != 0) rs as ps)
+      | _ => "bad sigs"
+    | _ => "bad ints"
+  | "read" :: rest =>
+    match parseInts? rest with
+    | some xs =>
+      match readRxn (xs.map Int.toNat) with
+      | .molecule => "mol"
+      | .error e => "err " ++ e
+      | .roles r a p => "ok R " ++ showStrs r ++ " A " ++ showStrs a ++ " P " ++ showStrs p
+    | none => "bad ints"
+  | "atok" :: rest =>
+    match parseInts? rest with
+    | some [z, iso, ch, pch, rad, prad] =>
+      match cgrAtomToken ⟨z.toNat, if iso ≤ 0 then none else some iso.toNat, ch, pch, rad != 0, prad != 0⟩ with
+      | .ok s => "ok " ++ s
+      | .error e => "err " ++ e
+    | _ => "bad ints"
+  | "btok" :: rest =>
+    match parseInts? rest with
+    | some [o, p] =>
+      match cgrBondToken ⟨if o ≤ 0 then none else some o.toNat, if p ≤ 0 then none else some p.toNat⟩ with
+      | .ok s => "ok " ++ s
+      | .error e => "err " ++ e
     | _ => "bad ints"
   | _ => "bad op"
 
